@@ -24,6 +24,10 @@ the differential harness c24*.go + Driver/C24.lean). All statements are for ever
                                         content type
   cross_part_copy_eq_same_part_copy   UploadPartCopy across storages = inside one storage
                                                                             (as-is AND repaired)
+  cross_conditions_eq_same / copy_conditions_spec   the cross-storage evaluator of the copy-source
+                             preconditions decides like the same-storage one, at every boundary
+  cross_copy_if_eq_same_copy_if, cross_part_copy_if_eq_same_part_copy_if, route_isolation_if
+                             the cross-copy and isolation theorems with preconditions
 -/
 import Pithos.Lemmas.Routing
 
@@ -288,6 +292,107 @@ example :
     findBucket (getS ss (storageOf xcfg "b0")) "b0"
       = findBucket { getS ss 0 with buckets := (getS ss 0).buckets ++ (getS ss 1).buckets } "b0" := by
   decide
+
+-- ---------------------------------------------------------------- copy-source preconditions
+
+/-- **cross_conditions_eq_same.** The precondition evaluator of the cross-storage branch
+(`copySourceConditionsSatisfied`) decides exactly like the one of a copy inside one storage
+(`evaluateCopySourceConditions`): for every combination of If-Match / If-None-Match / If-Unmodified-Since
+/ If-Modified-Since, every relation of the ETags to the source's and every distance of the two
+instants from the source's Last-Modified (to the millisecond, both signs, zero included). -/
+theorem cross_conditions_eq_same (c : CopyCond) : condOkCross c = condOkSame c := rfl
+
+/-- What the evaluators decide, spelled out (the S3 rules): If-Match must be `*` or the source's
+ETag; If-None-Match must name a different ETag; If-Unmodified-Since must not lie before the
+source's Last-Modified second unless If-Match passed; If-Modified-Since must lie strictly before
+it — an instant EQUAL to the Last-Modified second fails. -/
+theorem copy_conditions_spec (c : CopyCond) :
+    condOkSame c = true ↔
+      (c.im ≠ .other) ∧ (c.inm = .none ∨ c.inm = .other) ∧
+      (∀ d, c.ius = some d → 0 ≤ d ∨ c.im = .star ∨ c.im = .same) ∧
+      (∀ d, c.ims = some d → d < 0) := by
+  obtain ⟨im, inm, ius, ims⟩ := c
+  cases im <;> cases inm <;> cases ius <;> cases ims <;> simp [condOkSame] <;> omega
+
+/-- The boundary instants: If-Modified-Since one millisecond before / equal to / after the
+source's Last-Modified second; If-Unmodified-Since likewise (without and with a passing If-Match). -/
+example : condOkCross { ims := some (-1) } = true ∧ condOkCross { ims := some 0 } = false ∧
+    condOkCross { ims := some 1 } = false ∧ condOkCross { ius := some (-1) } = false ∧
+    condOkCross { ius := some 0 } = true ∧ condOkCross { ius := some 1 } = true ∧
+    condOkCross { ius := some (-1), im := .same } = true ∧ condOkCross { ius := some (-1), im := .other } = false := by
+  decide
+
+theorem readSource_of_findBucket {s t : State} {sb : String} (h : findBucket s sb = findBucket t sb)
+    (sk : String) (svid : Option (Option Nat)) : readSource s sb sk svid = readSource t sb sk svid := by
+  unfold readSource; rw [h]
+
+/-- **route_isolation_if.** Preconditions do not widen what a copy touches. -/
+theorem route_isolation_if (fx : Fixes) (q : Quirks) (c : Cfg) (ss : Stores) (cond : CopyCond) (op : XOp) (j : Nat)
+    (h : j ∉ targets c op) : (rstepIf fx q c ss cond op).1[j]? = ss[j]? := by
+  unfold rstepIf
+  split
+  · next sb db _ sk svid hr hc =>
+    dsimp only
+    split
+    · have hj : j ≠ storageOf c db := by simpa [targets, hr] using h
+      simp [List.getElem?_set_ne (Ne.symm hj)]
+    · split
+      · exact route_isolation fx q c ss op j h
+      · split
+        · exact route_isolation fx q c ss op j h
+        · rfl
+  · exact route_isolation fx q c ss op j h
+
+/-- **cross_copy_if_eq_same_copy_if.** `cross_copy_eq_same_copy` with copy-source preconditions:
+a conditional CopyObject across storages leaves the destination's storage in the state, and gives
+the caller the outcome (PreconditionFailed included), of the conditional copy inside one storage —
+for every precondition set. -/
+theorem cross_copy_if_eq_same_copy_if (ld : Bool) (q : Quirks) (c : Cfg) (ss : Stores) (s : State) (cond : CopyCond)
+    (sb sk db dk : String) (svid : Option (Option Nat)) (rm rt : Bool) (o : WriteOpts)
+    (hne : storageOf c sb ≠ storageOf c db)
+    (hdi : storageOf c db < ss.length)
+    (hsrc : findBucket (getS ss (storageOf c sb)) sb = findBucket s sb)
+    (hdst : getS ss (storageOf c db) = s) :
+    flatten (getS (rstepIf ⟨true, ld⟩ q c ss cond (.base (.copy sb sk svid db dk rm rt o))).1 (storageOf c db))
+      = flatten (xstepIf q s cond (.base (.copy sb sk svid db dk rm rt o))).1
+    ∧ writeOutcome (rstepIf ⟨true, ld⟩ q c ss cond (.base (.copy sb sk svid db dk rm rt o))).2.out
+      = writeOutcome (xstepIf q s cond (.base (.copy sb sk svid db dk rm rt o))).2 := by
+  have hbase := cross_copy_eq_same_copy ld q c ss s sb sk db dk svid rm rt o hne hdi hsrc hdst
+  have hne' : (storageOf c sb == storageOf c db) = false := by simpa using hne
+  have hrs := readSource_of_findBucket hsrc sk svid
+  simp only [rstepIf, xstepIf, route, routeBase, copySource, hne', Bool.false_eq_true, if_false, hrs, xstep]
+  cases readSource s sb sk svid with
+  | error e => exact hbase
+  | ok src =>
+    dsimp only
+    rw [cross_conditions_eq_same]
+    cases condOkSame cond with
+    | true => simpa using hbase
+    | false => simp [hdst, flatten, tick, writeOutcome]
+
+/-- **cross_part_copy_if_eq_same_part_copy_if.** Likewise for UploadPartCopy (as-is and repaired). -/
+theorem cross_part_copy_if_eq_same_part_copy_if (fx : Fixes) (q : Quirks) (c : Cfg) (ss : Stores) (s : State)
+    (cond : CopyCond) (sb sk db dk : String) (svid : Option (Option Nat)) (uid n : Nat) (range : Option (Nat × Nat))
+    (hne : storageOf c sb ≠ storageOf c db)
+    (hdi : storageOf c db < ss.length)
+    (hsrc : findBucket (getS ss (storageOf c sb)) sb = findBucket s sb)
+    (hdst : getS ss (storageOf c db) = s) :
+    flatten (getS (rstepIf fx q c ss cond (.partCopy sb sk svid db dk uid n range)).1 (storageOf c db))
+      = flatten (xstepIf q s cond (.partCopy sb sk svid db dk uid n range)).1
+    ∧ (rstepIf fx q c ss cond (.partCopy sb sk svid db dk uid n range)).2.out
+      = (xstepIf q s cond (.partCopy sb sk svid db dk uid n range)).2 := by
+  have hbase := cross_part_copy_eq_same_part_copy fx q c ss s sb sk db dk svid uid n range hne hdi hsrc hdst
+  have hne' : (storageOf c sb == storageOf c db) = false := by simpa using hne
+  have hrs := readSource_of_findBucket hsrc sk svid
+  simp only [rstepIf, xstepIf, route, copySource, hne', Bool.false_eq_true, if_false, hrs]
+  cases hr : readSource s sb sk svid with
+  | error e => exact hbase
+  | ok src =>
+    dsimp only
+    rw [cross_conditions_eq_same]
+    cases condOkSame cond with
+    | true => simpa using hbase
+    | false => simp [hdst, flatten, tick]
 
 -- ---------------------------------------------------------------- non-vacuity
 
